@@ -270,6 +270,27 @@ pub fn apply_op<K: Fam>(e: &mut Enr<K>, op: &Op, keys: &[K]) -> CallRes {
             *e = c;
             CallRes::Ok(Ret::Unit)
         }
+        Op::Reparse { prefix } => {
+            let t = e.to_base64();
+            let t = if *prefix { t } else { t.strip_prefix("enr:").unwrap_or(&t).to_string() };
+            match t.parse::<Enr<K>>() {
+                Ok(n) => {
+                    *e = n;
+                    CallRes::Ok(Ret::Unit)
+                }
+                Err(er) => CallRes::DecodeErr(er),
+            }
+        }
+        Op::Reserde => match serde_json::to_string(&*e) {
+            Ok(js) => match serde_json::from_str::<Enr<K>>(&js) {
+                Ok(n) => {
+                    *e = n;
+                    CallRes::Ok(Ret::Unit)
+                }
+                Err(er) => CallRes::DecodeErr(format!("{er}")),
+            },
+            Err(er) => CallRes::DecodeErr(format!("serialize: {er}")),
+        },
     });
     match r {
         Ok(c) => c,
